@@ -173,6 +173,12 @@ def isSpaceTok (t : Tok) : Bool :=
   | _ => false
 
 def skipSpace (b : Buf) : Buf := b.dropWhile isSpaceTok
+
+def isLangK (t : Tok) : Bool := match t.kind with | .lang .. => true | _ => false
+/-- `skip_space(stop_lang=True)`: a language token ends the space behind a macro name -/
+def skipSpaceStopLang (b : Buf) : Buf := b.dropWhile (fun t => isSpaceTok t && !isLangK t)
+/-- the language tokens `skip_space(langs)` passes over -/
+def skippedLangs (b : Buf) : List Tok := (b.takeWhile isSpaceTok).filter isLangK
 def lookAhead (b : Buf) : Option Tok := (skipSpace b).head?
 
 def txtIs (t : Tok) (s : String) : Bool := t.txt == s.toList
